@@ -128,7 +128,7 @@ CLAIMED = {
              'to the carrier line; with np.roots stubbed by symbolic roots of it every returned (bez_t,line_t) is in range and a common '
              'point, both call directions (quadratic <=1 root, cubic 0 roots quick; more in thorough).  The control-polygon pre-filters never '
              'reject curves sharing a point.  Subdivision acceptance (box_area < tol) examined as a function.  Path.intersect on stub '
-             'segments: triples coherent (T = t2T(seg,t)), de-duplication only drops near-duplicates. First iteration of the real bezier_intersections on symbolic boxes. Arc x Line closed form (candidate points, precondition rotation == 0, assembly), Arc x Bezier pairing, Arc.point_to_t (rotation 0; acos/asin as piecewise-linear folds in degrees; all loops and isclose tests executed), Line.point_to_t, Arc.phase2t, and Arc x Arc for two unrotated circles (candidates on both circles, tangent cases, assembly).',
+             'segments: triples coherent (T = t2T(seg,t)), de-duplication only drops near-duplicates. First iteration of the real bezier_intersections on symbolic boxes. Arc x Line closed form (candidate points, precondition rotation == 0, assembly), Arc x Bezier pairing, Arc.point_to_t (rotation 0; acos/asin as piecewise-linear folds in degrees; all loops and isclose tests executed), Line.point_to_t, Arc.phase2t, the Arc x Bezier root polynomial (= implicit ellipse equation along the curve), and Arc x Arc for two unrotated circles (candidates on both circles, tangent cases, assembly).',
         note='One recorded known finding (acceptance by box area). Arc pairs, subdivision termination and numeric margins outside. Line start anchored at the origin in the quick Line x Bezier families.',
         design='3/C11'),
     'C12': dict(
